@@ -283,6 +283,8 @@ def deviations():
     # occupancies that differ in the second decimal only (after seed C08-l)
     d += [d_altloc("0.33", "0.34"), d_repeat("0.45", "0.48"), d_close("0.48", "0.45")]
     d += [d_legacy_names, d_sodium]
+    # a written occupancy of 0.00 is a number, not a missing value: the zero-occupancy copy loses against any other copy
+    d += [d_altloc("0.00", "1.00"), d_repeat("0.00", "0.50"), d_close("0.00", "0.60"), d_close("0.70", "0.00")]
     return d
 
 
